@@ -251,6 +251,17 @@ def decide_item(prop, kind, name, opts, tier, seed, known):
                 rp = write_replay(prop, kind, name, v["clause"], v["detail"], args)
                 out["violations"].append((rp, ""))
     if pr is not None and pr.failed and not found_input:
+        # a solver counter-model (native string theory) is replayed on the real code before it counts
+        for ob in pr.failed:
+            cx = getattr(ob, "counterexample", None)
+            if cx is not None and kind == "contract":
+                out_n = runtime.check_call(name, dict(cx))
+                if out_n.status == "violation":
+                    if known_match(known, prop, kind, name, cx) is None:
+                        rp = write_replay(prop, kind, name, out_n.clause, f"solver counterexample confirmed natively: {out_n.detail}", cx, ob.solver_output, ob.label)
+                        out["violations"].append((rp, ""))
+                        found_input = True
+    if pr is not None and pr.failed and not found_input:
         for ob in pr.failed:
             if ob.status == "vacuous":
                 out["problems"].append(f"vacuity canary proved for {name}: {ob.label} (contradictory assumptions)")
